@@ -229,6 +229,7 @@ def main(argv):
     try:
         for use_vpc in (True, False):
           for ra in (0, 1, 2):
+           for interim in (False, True):
             for also_dropped in ((), (2,), (0, 3), (3,)):
                 C = Cluster(rng)
                 nodes = pool_nodes[:4]
@@ -243,9 +244,9 @@ def main(argv):
                 C.refuse = True
                 C.world.connect_hook = hook
                 C.world.tag = "failover"
-                case = {"use_vpc": use_vpc, "retry_attempts": ra, "scenario": "node marked dead, then dropped from the advertisement (together with healthy nodes "
-                        f"{list(also_dropped)}), then dead_timeout elapses"}
-                ctx.case(("failover-scaledown", use_vpc, ra, also_dropped))
+                case = {"use_vpc": use_vpc, "retry_attempts": ra, "scenario": "node marked dead, " + ("then a reconfiguration that still advertises it (it is healthy again), " if interim else "")
+                        + f"then dropped from the advertisement (together with healthy nodes {list(also_dropped)}), then dead_timeout elapses"}
+                ctx.case(("failover-scaledown", use_vpc, ra, also_dropped, interim))
                 ctx.count("failover-scale-down")
                 try:
                     cl = AWSElastiCacheHashClient(CFG, socket_module=C.sm, use_vpc=use_vpc, default_noreply=False, retry_attempts=ra, retry_timeout=1, dead_timeout=60, ignore_exc=True)
@@ -253,6 +254,13 @@ def main(argv):
                         clock[0] += 2
                         for k in keys:
                             cl.get(k)
+                    if interim:
+                        C.refuse = False
+                        C.version += 1
+                        cl.reconfigure_nodes()              # the list is unchanged: the node is advertised, so it is in rotation again
+                        clock[0] += 2
+                        for k in keys:
+                            cl.set(k, b"i", noreply=False)
                     C.advertised = [n for i, n in enumerate(nodes) if n != dead and i not in also_dropped]
                     C.version += 1
                     cl.reconfigure_nodes()
